@@ -10,47 +10,33 @@ Spec: `meaning : List Record → AState` (Journal/Spec.lean), `Producible` (same
 namespace HqModel.C10
 open HqModel.Journal
 
-/-- **Full-strength statement** (kept visible; FALSE of the current code, see `c10_full_statement_false`):
-for every producible journal — every prefix of every history the server can write — restore does not stop and the
-restored jobs, open flags, task outcomes, pending tasks with remaining dependencies, queues, id counters, uid AND the
-job counters of every job equal `meaning J`. -/
-def C10Full : Prop := ∀ J, Producible J → RestoreRefines J
-
-/-- **c10_restore_refines (partial).** For every producible journal `J` that contains no `TaskFailed` for a task that
-never started (hypothesis excluding defect F9): `restore J` does not stop (no error, no panic) and yields
+/-- **c10_restore_refines** (full strength; holds of the code after the fixes 08d60f1 (F9), 05de231 (F10), 360a725
+(F11), 40220c7 (F17)). For every producible journal `J` — every prefix of every history the server can write,
+including failures before the first start, several submits into an open job, earlier restarts, worker losses of every
+reason — `restore J` does not stop (no error, no panic) and yields
 * exactly the jobs `meaning J` has (= not completed), in the same order, with the same open flag, `max_fails`, number
-  of submits and task table, every task carrying its recorded outcome or `waiting`;
+  of submits, task table (every task carrying its recorded outcome, or `waiting`) and **job counters that agree with
+  the task states** (`RestoredJob.view = AJob.view`);
 * `TaskSubmit` batches that contain every task without outcome exactly once, in submit order, with dependencies =
-  original dependencies minus completed tasks (`batchPending X.batches = (meaning J).pending` as lists);
-* the recorded allocation queues, the id counters `max+1`, the uid;
-* job counters that agree with the task states **for jobs with at most one submit** (hypothesis excluding defect F10).
-Missing w.r.t. `C10Full`: journals with a failure before the first start (F9) and the counters of jobs with ≥ 2
-submits (F10) — both refuted below on witnesses. -/
-theorem c10_restore_refines_partial (J : List Record) (hp : Producible J) (hf : NoFailBeforeStart J) :
-    ∃ R X, restore J = .ok (R, X) ∧ RefinesCore R X (meaning J) ∧
-      RefinesCounters (fun aj => decide (aj.nSubmits ≤ 1)) X (meaning J) := by
-  obtain ⟨R, hR, hinv⟩ := fold_inv J {} {} inv_init hp hf
-  obtain ⟨js, bs, h1, h2, h3, h4⟩ := restoreJobsFrom_ok hinv.jobs
+  original dependencies minus completed tasks (restart clause of C03), the instance id = highest recorded + 1 (restart
+  clause of C06) and the crash counter = number of recorded failure-losses of its root worker while it ran (restart
+  clause of C07), as `handle_new_tasks` applies the adjust map (`batchPending X.batches = (meaning J).pending`);
+* the recorded allocation queues, the id counters `max + 1`, the uid of the last `ServerStart`. -/
+theorem c10_restore_refines (J : List Record) (hp : Producible J) : RestoreRefines J := by
+  obtain ⟨R, hR, hinv⟩ := fold_inv J {} {} inv_init hp
+  obtain ⟨js, bs, h1, h2, h3⟩ := restoreJobsFrom_ok hinv.jobs
     { queues := R.queues.map fun q => (q.1, (alGet R.queueRes q.1).isSome) }
   have hA : List.foldl meaningStep {} J = meaning J := rfl
-  rw [hA] at hinv h2 h3 h4
+  rw [hA] at hinv h2 h3
   refine ⟨R, ⟨js, bs, R.queues.map fun q => (q.1, (alGet R.queueRes q.1).isSome)⟩,
-    by simp only [restore, restorerFold, hR, restoreJobs, h1]; rfl, ⟨?_, ?_, ?_, ?_, hinv.uid⟩, ?_⟩
+    by simp only [restore, restorerFold, hR, restoreJobs, h1]; rfl, ⟨?_, ?_, ?_, ?_, hinv.uid⟩⟩
   · simpa using h2
   · simpa [AState.pending] using h3
   · simp [← hinv.queues, List.map_map, Function.comp_def]
   · simp [counters, hinv.maxJob, hinv.maxWorker, hinv.maxQueue]
-  · intro j hj aj haj hle
-    obtain ⟨aj', hmem, hc⟩ := h4 j hj
-    have hn := meaning_keys J {} (by simp)
-    rw [hA] at hn
-    have := alGet_of_mem_nodup hn hmem
-    rw [haj] at this
-    cases this
-    exact hc (by simpa using hle)
 
 /-- **c10_prefix.** The statement is closed under prefixes: every record boundary of a producible journal is a crash
-point at which the theorem applies again (same for the F9-excluding hypothesis). -/
+point at which the theorem applies again. -/
 theorem c10_prefix (J K : List Record) (h : Producible (J ++ K)) : Producible J := by
   unfold Producible at *
   generalize ({} : AState) = s at *
@@ -60,22 +46,10 @@ theorem c10_prefix (J K : List Record) (h : Producible (J ++ K)) : Producible J 
     simp only [List.cons_append, producibleFrom, Bool.and_eq_true] at h ⊢
     exact ⟨h.1, ih _ h.2⟩
 
-theorem c10_prefix_noFail (J K : List Record) (h : NoFailBeforeStart (J ++ K)) : NoFailBeforeStart J := by
-  unfold NoFailBeforeStart at *
-  generalize ({} : AState) = s at *
-  induction J generalizing s with
-  | nil => rfl
-  | cons x xs ih =>
-    simp only [List.cons_append, noFailBeforeStartFrom, Bool.and_eq_true] at h ⊢
-    exact ⟨h.1, ih _ h.2⟩
-
 /-- restore at every crash point of a producible journal (corollary of the two theorems above) -/
-theorem c10_every_crash_point (J : List Record) (hp : Producible J) (hf : NoFailBeforeStart J) (n : Nat) :
-    ∃ R X, restore (J.take n) = .ok (R, X) ∧ RefinesCore R X (meaning (J.take n)) := by
+theorem c10_every_crash_point (J : List Record) (hp : Producible J) (n : Nat) : RestoreRefines (J.take n) := by
   have e : J.take n ++ J.drop n = J := List.take_append_drop n J
-  obtain ⟨R, X, h1, h2, _⟩ := c10_restore_refines_partial (J.take n) (c10_prefix _ (J.drop n) (by rw [e]; exact hp))
-    (c10_prefix_noFail _ (J.drop n) (by rw [e]; exact hf))
-  exact ⟨R, X, h1, h2⟩
+  exact c10_restore_refines (J.take n) (c10_prefix _ (J.drop n) (by rw [e]; exact hp))
 
 /-- **c10_torn_tail.** For every lawful event code (the trusted bincode assumption), every header, every journal `J`
 and every strict prefix `p` of one more encoded record: reading `header ++ enc J ++ p` yields exactly the records `J`,
@@ -115,9 +89,10 @@ def sample : List Record :=
    .taskStarted 1 0 0 [1], .taskFinished 1 0, .taskStarted 1 1 0 [1], .workerLost 1 .heartbeatLost,
    .submit 2 true none (.array [⟨0, 3, 1⟩] none), .tasksCanceled [(2, 1)], .jobCancel 2]
 
-example : Producible sample ∧ NoFailBeforeStart sample := by decide
+example : Producible sample := by decide
 
-example : (meaning sample).pending = [(1, 1, []), (1, 2, [1]), (2, 0, []), (2, 2, [])] := by decide
+example : (meaning sample).pending = [(1, 1, [], 1, 1), (1, 2, [1], 0, 0), (2, 0, [], 0, 0), (2, 2, [], 0, 0)] := by
+  decide
 
 example : (⟨fun _ => [0], fun b => match b with | [] => .eof | _ :: _ => .ok () 1⟩ : Codec Unit).Lawful :=
   ⟨fun _ _ => rfl, fun _ => by simp, fun _ p hp hne h0 => by
@@ -130,39 +105,41 @@ example : (⟨fun _ => [0], fun b => match b with | [] => .eof | _ :: _ => .ok (
       | nil => obtain ⟨t, ht⟩ := hp; simp at ht; exact hne (by simp [ht.1])
       | cons _ _ => simp at this⟩
 
-/-! ### Defect witnesses (replayed on the real code: /verif/corpus/journal/) -/
+/-! ### Regression witnesses of the defects fixed in /repo (each was replayed on the pre-fix code, see
+/verif/notes/journal.md and /verif/corpus/journal/); on the fixed code — which the model follows — they restore fine. -/
 
-/-- F9: a task fails before its first start (worker-side launch error: `try_start_task` → `WorkerTaskUpdate::Failed`
-without `Running`). `load_event_file` does `job.tasks.get_mut(..).unwrap()` on `None`. -/
+/-- F9 (fixed by 08d60f1): a task fails before its first start (worker-side launch error: `try_start_task` →
+`WorkerTaskUpdate::Failed` without `Running`). Pre-fix: `job.tasks.get_mut(..).unwrap()` on `None` → panic. -/
 def witnessF9 : List Record :=
   [.serverStart "abc123", .submit 1 true none (.array [⟨0, 2, 1⟩] none), .workerConnected 1 none, .taskFailed 1 0]
 
-theorem c10_f9_witness : Producible witnessF9 ∧ restore witnessF9 = .error (.panic .taskFailedUnwrap) := by
-  refine ⟨by decide, rfl⟩
+theorem c10_f9_regression : Producible witnessF9 ∧
+    ∃ R X, restore witnessF9 = .ok (R, X) ∧
+      X.jobs.map RestoredJob.view = [(1, false, none, 1, [(0, .failed), (1, .waiting)], ⟨0, 0, 1, 0, 0⟩)] ∧
+      batchPending X.batches = [(1, 1, [], 0, 0)] := by
+  exact ⟨by decide, _, _, rfl, rfl, rfl⟩
 
-/-- F10: an open job with two submits; the counters loop of `restore_job` runs over ALL `job.tasks` once per submit,
-so the finished task of the first submit is counted twice (`n_finished_tasks = 2` with one finished task; with two
-tasks `n_waiting_tasks = 0`: the job looks terminated although task 1 has not run). -/
+/-- F10 (fixed by 05de231): an open job with two submits. Pre-fix the counters loop of `restore_job` ran over ALL
+`job.tasks` once per submit: `n_finished_tasks = 2` with one finished task, `Job::is_terminated()` although task 1 had
+not run. -/
 def witnessF10 : List Record :=
   [.serverStart "abc123", .jobOpen 1 none, .submit 1 false none (.array [⟨0, 1, 1⟩] none), .workerConnected 1 none,
    .taskStarted 1 0 0 [1], .taskFinished 1 0, .submit 1 false none (.array [⟨1, 1, 1⟩] none), .jobClose 1]
 
-theorem c10_f10_witness : Producible witnessF10 ∧ NoFailBeforeStart witnessF10 ∧
-    ∃ R X, restore witnessF10 = .ok (R, X) ∧ (X.jobs.map (·.counters.finished)) = [2] ∧
-      ((meaning witnessF10).jobs.map (·.2.counters.finished)) = [1] ∧
-      ¬ RefinesCounters (fun _ => true) X (meaning witnessF10) := by
-  refine ⟨by decide, by decide, _, _, rfl, by decide, by decide, ?_⟩
-  intro h
-  have := h ⟨1, false, none, [(0, .finished ⟨0, [1]⟩), (1, .waiting)], ⟨0, 2, 0, 0, 0⟩, 2⟩ (by decide)
-    ⟨false, none, [⟨0, [], .finished, some 0, none, 0⟩, ⟨1, [], .waiting, none, none, 0⟩], 2⟩ (by decide) rfl
-  revert this
-  decide
+theorem c10_f10_regression : Producible witnessF10 ∧
+    ∃ R X, restore witnessF10 = .ok (R, X) ∧ (X.jobs.map (·.counters)) = [⟨0, 1, 0, 0, 0⟩] := by
+  exact ⟨by decide, _, _, rfl, rfl⟩
 
-/-- the full-strength statement is false of the code as it is (by F9; F10 refutes the counters clause separately) -/
-theorem c10_full_statement_false : ¬ C10Full := by
-  intro h
-  obtain ⟨R, X, hr, _⟩ := h witnessF9 c10_f9_witness.1
-  rw [c10_f9_witness.2] at hr
-  cases hr
+/-- F11 + F17 (fixed by 360a725, 40220c7): task 1.0 crashes once on worker 1 and is started again on worker 2 (pre-fix:
+crash counter reset to 0); the multi-node task 1.1 runs on [2, 3] and loses its non-root worker 3 (pre-fix: a crash was
+charged). Now the core gets crash counters 1 and 0. -/
+def witnessF11F17 : List Record :=
+  [.serverStart "abc123", .submit 1 true none (.array [⟨0, 2, 1⟩] none), .workerConnected 1 none, .workerConnected 2 none,
+   .workerConnected 3 none, .taskStarted 1 0 0 [1], .workerLost 1 .connectionLost, .taskStarted 1 0 1 [2],
+   .taskStarted 1 1 0 [2, 3], .workerLost 3 .heartbeatLost]
+
+theorem c10_f11_f17_regression : Producible witnessF11F17 ∧
+    ∃ R X, restore witnessF11F17 = .ok (R, X) ∧ batchPending X.batches = [(1, 0, [], 2, 1), (1, 1, [], 1, 0)] := by
+  exact ⟨by decide, _, _, rfl, rfl⟩
 
 end HqModel.C10
